@@ -13,7 +13,6 @@ open Str (R)
     * `from_entries`: an entry that is not an object with a usable string key;
     * `unflatten`: the empty separator;
     * `encode_base64`: a charset other than `standard` / `url_safe`;
-    * `to_float`: a timestamp whose nanoseconds do not fit an `i64`;
     * `mod`: an infinite float dividend (NaN patterns do not occur in a `NotNan`); mixed
       integer/float operands are not covered by the theorem (they go through `i64 as f64`);
     * `flatten`: an `except` argument that is not a literal array of strings is rejected by the
@@ -23,7 +22,6 @@ def errClass (F : Fn) (vs : Slots) : Bool :=
   | .fromEntries, [some (.arr xs)] => !allEntriesOk xs
   | .unflatten, [_, some (.bytes s), _] => (Conv.Utf8.lossy s).isEmpty
   | .encodeBase64, [_, _, some (.bytes c)] => (Codec.Base64.Charset.ofName c).isNone
-  | .toFloat, [some (.ts ns)] => !(decide (-9223372036854775808 ≤ ns) && decide (ns ≤ 9223372036854775807))
   | .mod, [some (.int _), some (.int _)] => false
   | .mod, [some (.float a), some (.float b)] => F64.isNaN a || F64.isInf a || F64.isNaN b
   | .mod, _ => true
@@ -64,7 +62,10 @@ theorem mod_infallible_const {as : ASlots} (h : (declaredFn .mod as).fallible = 
     | none => simp [hc, modTD] at h
     | some w =>
       cases w <;> simp [hc, modTD] at h
-      · exact Or.inr ⟨_, rfl, h⟩
+      · rename_i i
+        by_cases hi : i = 0
+        · simp [hi] at h
+        · exact Or.inr ⟨_, rfl, hi⟩
       · exact Or.inl ⟨_, rfl, h⟩
 
 theorem tryRem_float_ne_err {a b : Nat} (ha : F64.isNaN a = false) (hi : F64.isInf a = false)
@@ -175,9 +176,7 @@ theorem infallible_partial (E : Env) (F : Fn) (as : ASlots) (vs : Slots) (td : T
     obtain ⟨⟨⟨hb, ha⟩, ho⟩, hre⟩ := hfn
     obtain ⟨nb, nt, nr, na, no⟩ := not_contains (head_mem c)
     cases v <;> try (first | (exact absurd rfl (nb hb)) | (exact absurd rfl (na ha)) | (exact absurd rfl (no ho)) | (exact absurd rfl (nr hre)))
-    case ts ns =>
-      simp only [errClass, Bool.not_eq_false', Bool.and_eq_true, decide_eq_true_eq] at hc
-      simp [model, un, Round.toFloat, hc.1, hc.2]
+    case ts ns => simp only [model, un, Round.toFloat]; split <;> simp
     all_goals simp [model, un, Round.toFloat]
   case toBool =>
     obtain ⟨v, rest, rfl, hv, hr⟩ := typesOk_req ht; cases typesOk_nil hr
